@@ -20,6 +20,7 @@ PARTIAL = [
     "orthonormality of the random initial orientations comes from SciPy's Rotation.random (checked, not proved)",
 ]
 ASSUMPTIONS = ["the solver output is unconstrained in the theorems (any vectors); only the code's own post-processing is relied on"]
+JIT_TWIN = ('update', 'utils')   # groups of harness/jittwin.py: the numba-compiled code is run on the same battery and compared
 TRUSTED = ["harness/solver.py scenario driver and LSODA recorder"]
 
 
